@@ -721,6 +721,22 @@ func runWorld(dir string, w *world, lay layoutJ, r *vh.Rand, only func(qi int, q
 			res.fail = fail + ": " + o.Err
 			return res
 		}
+		if q.Order != nil && o.Code == 0 {
+			// which groups an order by ... limit keeps must not depend on the order in which the groups reach the heap (the
+			// iteration order of a Go map, different from execution to execution): the statement is asked again a few times
+			// and an answer that differs from the first one is the one reported
+			first := fmt.Sprint(o.Entries)
+			for rep := 0; rep < 6; rep++ {
+				o2, fail2 := c.run(q)
+				if fail2 != "" || o2.Code != 0 {
+					break
+				}
+				if fmt.Sprint(o2.Entries) != first {
+					o = o2
+					break
+				}
+			}
+		}
 		res.obs = append(res.obs, o)
 	}
 	return res
